@@ -20,7 +20,24 @@
  */
 #include "verif.h"
 #include "c14_time.h"
+/* C14_NATIVE_NOOPT (native replay build only): compile the unit without optimisation, so that a local that is read before it was
+ * written (saved_errno in valid_pil_validity_window before commit 311393e) is really loaded from its stack slot; at -O1 clang deletes
+ * the store of the undefined value and errno keeps mktime's EOVERFLOW by accident, i.e. the counterexample would not replay. */
+#if defined(VERIF_NATIVE) && defined(C14_NATIVE_NOOPT)
+#pragma clang optimize off
+#endif
 #include "src/pdc.c"
+#if defined(VERIF_NATIVE) && defined(C14_NATIVE_NOOPT)
+#pragma clang optimize on
+/* fills the stack area the next call will use with a recognisable pattern (0x5A5A5A5A is no errno value) */
+__attribute__((noinline)) static void c14_stack_pattern(void)
+{
+  volatile unsigned char a[4096]; unsigned i;
+  for (i = 0; i < sizeof a; i++) a[i] = 0x5A;
+}
+#else
+#define c14_stack_pattern() ((void) 0)
+#endif
 #undef mktime
 #undef timegm
 
@@ -399,6 +416,7 @@ V_HARNESS(h_pil_window_mktime_fails)
   V_ASSUME(sc.pd <= m14_days_in_month(ref_year(&sc), sc.pm0));
   b = e = 0;
   errno = 0;
+  c14_stack_pattern();
   ok = valid_pil_validity_window(&b, &e, sc.pil, sc.start_arg, sc.tz);
   post_tz(&sc);
   V_ASSERT(!ok, "mktime_failure_reported");
